@@ -366,7 +366,7 @@ func tlsMutate(r Rand, msg []byte, _ bool) []byte {
 	if len(out) < 6 {
 		return GenericMutate(r, msg)
 	}
-	switch choose(r, 18, "tls.mut") {
+	switch choose(r, 19, "tls.mut") {
 	case 0, 1: // any length field of the hello, message left as it is or following
 		if len(l.lenFields) > 0 {
 			out = mutateLenField(r, out, l.lenFields, "tls.lenfield")
@@ -442,6 +442,12 @@ func tlsMutate(r Rand, msg []byte, _ bool) []byte {
 			} else {
 				putBE16(out, l.suitesLen, 0)
 			}
+		}
+	case 18: // the handshake message spread over two handshake records (RFC 8446 section 5.1 allows it)
+		n := int(lenField{off: 3, width: 2}.get(out))
+		if n >= 2 && 5+n <= len(out) {
+			k := 1 + choose(r, n-1, "tls.fragat")
+			out = cat(out[:3], be16(k), out[5:5+k], []byte{0x16, 0x03, 0x03}, be16(n-k), out[5+k:])
 		}
 	default:
 		out = GenericMutate(r, msg)
